@@ -12,6 +12,8 @@
 //!  (e) spurious_timeout block_timeout returned Timeout although the future was complete (and its wake
 //!                      delivered) more than 20 ms before `start + duration` (start taken before the call)
 //! The converse of (e) is not demanded by the property and not checked.
+//! (a)/(b) are also applied to sleeps that change waiter before the deadline (block_timeout then
+//! block_on, migration to another thread) or are restarted with reset() (case_repoll).
 use crate::wk::{WakeState, waker};
 use dust_dds::infrastructure::error::DdsError;
 use dust_dds::runtime::{DdsRuntime, Timer};
@@ -905,6 +907,92 @@ fn case_block_timeout(cx: &mut Ctx, rt: &Rt, rng: &mut Rng) -> String {
     format!("block_timeout threads={} background={}", threads, conc_bucket(background))
 }
 
+
+/// A Sleep that is polled by more than one waiter before its deadline (waker migration), or whose
+/// deadline is (re)started with `reset()`: the *latest* waiter must be woken after the deadline.
+///   mode 0: block_timeout(T < d, &mut sleep) times out, then block_on(&mut sleep) (same thread, fresh waker)
+///   mode 1: polled once by hand with a counting waker, then moved to another thread and block_on there
+///   mode 2: reset() before the first poll, then block_on
+///   mode 3: polled once by hand, reset() (deadline moves), then block_on on another thread
+/// Records use t0 = instant before the first poll (modes 0,1) resp. before the last reset (modes 2,3).
+fn case_repoll(cx: &mut Ctx, rt: &Rt, rng: &mut Rng) -> String {
+    let threads = 1 + rng.usize(12);
+    let per = 1 + rng.usize(3);
+    let total = threads * per;
+    let coll = Coll::new(total);
+    let mut max_d = Duration::ZERO;
+    for t in 0..threads {
+        let mut trng = rng.fork(7000 + t as u64);
+        let plan: Vec<(u8, Duration, Duration)> = (0..per)
+            .map(|_| {
+                let mode = trng.below(4) as u8;
+                let d = Duration::from_micros(20_000 + trng.below(180_000));
+                // time spent with the first waiter: strictly inside the sleep
+                let first = Duration::from_micros(1_000 + trng.below((d.as_micros() as u64 / 2).max(1)));
+                (mode, d, first)
+            })
+            .collect();
+        max_d = max_d.max(plan.iter().map(|p| p.1 + p.2 + Duration::from_millis(50)).sum());
+        let timer = rt.timer.clone();
+        let coll = coll.clone();
+        // not joined: a thread stuck in block_on must not hang the monitor
+        thread::spawn(move || {
+            for (mode, d, first) in plan {
+                let mut s = timer.sleep(d);
+                match mode {
+                    0 => {
+                        let t0 = Instant::now();
+                        let r = block_timeout(first, &mut s);
+                        if r.is_ok() {
+                            // completed within `first` < d: early (checked by the record below)
+                            coll.push(Rec { d, t0, t1: Instant::now(), via: "repoll_timeout_then_block_on" });
+                            continue;
+                        }
+                        block_on(&mut s);
+                        coll.push(Rec { d, t0, t1: Instant::now(), via: "repoll_timeout_then_block_on" });
+                    }
+                    1 | 3 => {
+                        let ws = WakeState::new(None);
+                        let w = waker(&ws);
+                        let mut t0 = Instant::now();
+                        let ready = Pin::new(&mut s).poll(&mut Context::from_waker(&w)).is_ready();
+                        if ready {
+                            coll.push(Rec { d, t0, t1: Instant::now(), via: "repoll_migrated" });
+                            continue;
+                        }
+                        thread::sleep(first);
+                        let via = if mode == 3 {
+                            t0 = Instant::now();
+                            s.reset();
+                            "repoll_reset_after_poll"
+                        } else {
+                            "repoll_migrated"
+                        };
+                        let coll2 = coll.clone();
+                        // the sleep migrates to another thread (and another waker)
+                        thread::spawn(move || {
+                            block_on(&mut s);
+                            coll2.push(Rec { d, t0, t1: Instant::now(), via });
+                        });
+                    }
+                    _ => {
+                        thread::sleep(first);
+                        let t0 = Instant::now();
+                        s.reset();
+                        block_on(&mut s);
+                        coll.push(Rec { d, t0, t1: Instant::now(), via: "repoll_reset_before_poll" });
+                    }
+                }
+            }
+        });
+    }
+    let c2 = coll.clone();
+    cx.wait_all("repoll", max_d, &move || c2.remaining.load(Ordering::SeqCst));
+    let recs = coll.recs.lock().unwrap().clone();
+    cx.check_recs(&recs, total);
+    format!("repoll threads={}", threads)
+}
+
 // ------------------------------------------------------------------------------------------ driver
 
 pub fn run(args: &Args, rep: &mut Report, shard: u64, nshards: u64) {
@@ -960,7 +1048,8 @@ pub fn run(args: &Args, rep: &mut Report, shard: u64, nshards: u64) {
                 "drop" => 6,
                 "output" => 8,
                 "block_timeout" => 9,
-                _ => rng.below(10),
+                "repoll" => 10,
+                _ => rng.below(12),
             };
             let replay = Json::obj()
                 .set("engine", "thr")
@@ -975,7 +1064,8 @@ pub fn run(args: &Args, rep: &mut Report, shard: u64, nshards: u64) {
                 5 => case_block_on(&mut cx, rt, &mut rng),
                 6..=7 => case_drop(&mut cx, rt, &mut rng),
                 8 => case_output(&mut cx, rt, &mut rng),
-                _ => case_block_timeout(&mut cx, rt, &mut rng),
+                9 => case_block_timeout(&mut cx, rt, &mut rng),
+                _ => case_repoll(&mut cx, rt, &mut rng),
             };
             let abort = cx.abort;
             rep.eval();
